@@ -416,6 +416,184 @@ pub mod tv {
 }
 """
 
+
+HAND_X = """
+/// hand-written structure members: generic trait, lifetime-parameterised trait, supertrait, unsafe / extern "C" methods,
+/// skip_func, built-in ext traits (Debug, Display)
+pub mod xg {
+    #![allow(unused_variables, unused_mut, clippy::all)]
+    use h_objbase::support::*;
+    use cglue::*;
+    #[cglue_trait]
+    pub trait TG<X> {
+        fn g(&self, x: X) -> X;
+        fn h(&mut self, x: &X) -> u64;
+    }
+    impl TG<u64> for Imp {
+        fn g(&self, x: u64) -> u64 {
+            self.enter(9101, x);
+            x.wrapping_mul(3) ^ self.acc
+        }
+        fn h(&mut self, x: &u64) -> u64 {
+            seen(x as *const u64);
+            self.enter(9102, *x);
+            self.acc = self.acc.wrapping_add(*x);
+            self.acc
+        }
+    }
+    pub fn call<T: TG<u64> + Unpin>(t: &mut Option<T>, action: usize, sel: u64) -> Obs {
+        ptr_reset();
+        set_sel(sel);
+        let ret = match action {
+            0 => t.as_ref().unwrap().g(0),
+            1 => t.as_ref().unwrap().g(u64::MAX),
+            2 => {
+                sent(&FIVE as *const u64);
+                t.as_mut().unwrap().h(&FIVE)
+            }
+            _ => unreachable!(),
+        };
+        Obs { ret, post: 0, ptr_ok: ptr_ok() }
+    }
+    pub const ACTIONS: &[(bool, u64)] = &[(false, 1), (false, 1), (false, 1)];
+    pub const DESC: &str = "generic trait TG<X> instantiated with u64 (by-value and by-reference X)";
+}
+pub mod xl {
+    #![allow(unused_variables, unused_mut, clippy::all)]
+    use h_objbase::support::*;
+    use cglue::*;
+    // (a trait lifetime used directly in a method signature — `fn l(&self, a: &'a u64)` — is rejected by the generator with
+    // a compile error; the supported shape is the one of the repository's own GenWithLifetime test)
+    #[cglue_trait]
+    pub trait TL<'a, X: Eq + 'a> {
+        fn l(&self) -> &X;
+        fn n(&self, x: &X) -> u64;
+    }
+    impl<'a> TL<'a, u64> for Imp {
+        fn l(&self) -> &u64 {
+            self.enter(9111, 0);
+            sent(&self.acc as *const u64);
+            &self.acc
+        }
+        fn n(&self, x: &u64) -> u64 {
+            seen(x as *const u64);
+            self.enter(9112, *x);
+            self.acc ^ *x
+        }
+    }
+    pub fn call<'a, T: TL<'a, u64> + Unpin>(t: &mut Option<T>, action: usize, sel: u64) -> Obs {
+        ptr_reset();
+        set_sel(sel);
+        let ret = match action {
+            0 => {
+                let r = t.as_ref().unwrap().l();
+                seen(r as *const u64);
+                *r
+            }
+            1 => {
+                sent(&FIVE as *const u64);
+                t.as_ref().unwrap().n(&FIVE)
+            }
+            _ => unreachable!(),
+        };
+        Obs { ret, post: 0, ptr_ok: ptr_ok() }
+    }
+    pub const ACTIONS: &[(bool, u64)] = &[(false, 1), (false, 1)];
+    pub const DESC: &str = "lifetime- and type-parameterised trait TL<'a, X> returning a reference into the value";
+}
+pub mod xs {
+    #![allow(unused_variables, unused_mut, clippy::all)]
+    use h_objbase::support::*;
+    use cglue::*;
+    #[cglue_trait]
+    pub trait TS: Send {
+        fn s(&self, a: u64) -> u64;
+        unsafe fn u(&self, a: u64) -> u64;
+        extern "C" fn e(&self, a: u64) -> u64;
+        unsafe extern "C" fn ue(&mut self, a: u64) -> u64;
+        #[skip_func]
+        fn skipped(&self) -> u64 {
+            5
+        }
+    }
+    impl TS for Imp {
+        fn s(&self, a: u64) -> u64 {
+            self.enter(9121, a);
+            a ^ 1
+        }
+        unsafe fn u(&self, a: u64) -> u64 {
+            self.enter(9122, a);
+            a ^ 2
+        }
+        extern "C" fn e(&self, a: u64) -> u64 {
+            self.enter(9123, a);
+            a ^ 3
+        }
+        unsafe extern "C" fn ue(&mut self, a: u64) -> u64 {
+            self.enter(9124, a);
+            self.acc ^= a;
+            self.acc
+        }
+    }
+    pub fn call<T: TS + Unpin>(t: &mut Option<T>, action: usize, sel: u64) -> Obs {
+        ptr_reset();
+        set_sel(sel);
+        let ret = match action {
+            0 => t.as_ref().unwrap().s(7),
+            1 => unsafe { t.as_ref().unwrap().u(7) },
+            2 => t.as_ref().unwrap().e(7),
+            3 => unsafe { t.as_mut().unwrap().ue(7) },
+            4 => t.as_ref().unwrap().skipped(),
+            _ => unreachable!(),
+        };
+        Obs { ret, post: 0, ptr_ok: ptr_ok() }
+    }
+    pub const ACTIONS: &[(bool, u64)] = &[(false, 1), (false, 1), (false, 1), (false, 1), (false, 1)];
+    pub const DESC: &str = "supertrait Send; unsafe, extern \\"C\\" and unsafe extern \\"C\\" methods; a #[skip_func] method";
+}
+pub mod xf {
+    #![allow(unused_variables, unused_mut, clippy::all)]
+    use h_objbase::support::*;
+    use cglue::*;
+    pub use ::core::fmt::Debug;
+    pub fn call<T: ::core::fmt::Debug + Unpin>(t: &mut Option<T>, action: usize, sel: u64) -> Obs {
+        ptr_reset();
+        set_sel(sel);
+        let o = t.as_ref().unwrap();
+        // only the plain form: the library implements `fmt` of its built-in ext traits with a custom_impl that re-formats
+        // with a fixed "{:?}" on the other side, so formatter flags (alternate, width, precision) are not forwarded — a
+        // custom implementation, which the property excludes
+        let s = match action {
+            0 => format!("{:?}", o),
+            1 => format!("<{:?}>{:?}", o, o),
+            _ => unreachable!(),
+        };
+        Obs { ret: digest(&s), post: 0, ptr_ok: true }
+    }
+    pub const ACTIONS: &[(bool, u64)] = &[(false, 1), (false, 1)];
+    pub const DESC: &str = "built-in ext trait core::fmt::Debug (plain formatting)";
+}
+pub mod xp {
+    #![allow(unused_variables, unused_mut, clippy::all)]
+    use h_objbase::support::*;
+    use cglue::*;
+    pub use ::core::fmt::Display;
+    pub fn call<T: ::core::fmt::Display + Unpin>(t: &mut Option<T>, action: usize, sel: u64) -> Obs {
+        ptr_reset();
+        set_sel(sel);
+        let o = t.as_ref().unwrap();
+        let s = match action {
+            0 => format!("{}", o),
+            1 => format!("<{}>{}", o, o),
+            _ => unreachable!(),
+        };
+        Obs { ret: digest(&s), post: 0, ptr_ok: true }
+    }
+    pub const ACTIONS: &[(bool, u64)] = &[(false, 1), (false, 1)];
+    pub const DESC: &str = "built-in ext trait core::fmt::Display (plain formatting)";
+}
+"""
+
 NSHARD = 8
 
 SHARD_TOML = """[package]
@@ -455,6 +633,14 @@ def main():
         reg = ["pub fn all() -> Vec<TraitCase> {", "    let mut v: Vec<TraitCase> = Vec::new();"]
         for t in ts:
             reg.append("    v.push(h_objbase::case_%s!(%s, %s, %d));" % (t.kind(), t.mod, t.name, t.idx))
+        if k == 1:
+            chunks.append(HAND_X)
+            reg.append("    v.push(h_objbase::case_mut!(xg, TG, 900010));")
+            reg.append("    v.push(h_objbase::case_ref!(xl, TL, 900011));")
+            reg.append("    v.push(h_objbase::case_mut!(xs, TS, 900012));")
+            # by-reference containers are ambiguous for the fmt traits (`&T: Debug` as well): owned containers only
+            reg.append("    v.push(h_objbase::case_own!(xf, Debug, 900013));")
+            reg.append("    v.push(h_objbase::case_own!(xp, Display, 900014));")
         reg.append("    v")
         reg.append("}")
         reg.append("pub fn raw_checks() -> Vec<(usize, &'static str, fn() -> Result<u64, (String, String)>)> {")
